@@ -5,7 +5,8 @@ HERE = os.path.dirname(os.path.dirname(os.path.abspath(__file__)))
 sys.path.insert(0, os.path.join(HERE, "harness", "py"))
 import props as PR
 props = [json.loads(l) for l in open(os.path.join(HERE, "properties.jsonl"))]
-hooks_commit = "0d0cdd7"
+import subprocess
+hooks_commits = [l.split()[0] for l in subprocess.check_output(["git", "-C", "/repo", "log", "--format=%h %s"]).decode().splitlines() if l.split(" ", 1)[1].startswith("verif:")][::-1]
 checks = []
 for p in props:
     pid = p["id"]
@@ -27,7 +28,7 @@ m = dict(
     hooks=dict(guard="cargo feature `verif-trace` of swc-vue-jsx-visitor (visitor/Cargo.toml [features])",
                enable="harness/driver/Cargo.toml depends on /repo/visitor with features=[\"verif-trace\"]; every check rebuilds it from /repo's working tree",
                baseline_off_cmd="cd /repo && cargo test --workspace --no-fail-fast --offline",
-               source_commits=[hooks_commit], add_only=True),
+               source_commits=hooks_commits, add_only=True),
     engines=[dict(name="tlc-spec-conformance", path="check", serves_properties=[c["property_id"] for c in checks],
                   kind_free_text="TLA+ specification (spec/*.tla) checked with TLC; conformance harness = Rust driver on the real visitor + node runtime observer; judges are TLC trace specs")],
     checks=checks,
